@@ -197,6 +197,45 @@ pub fn c14_run(args: &Args) -> i32 {
         eprintln!("MACHINERY: {e}");
         return 2;
     }
+    // the same under a monotonic clock that runs 2000x fast (LD_PRELOAD shim): a search of a few
+    // milliseconds has "been running for many seconds" as far as the engine can tell, so anything
+    // the reporting does after some amount of elapsed time happens here; go depth N has no time
+    // limit, so the reports must still be depth 1..N, once each, in order
+    let mut fast_sessions = vec![];
+    for p in P9.iter().take(if thorough { P9.len() } else { 12 }) {
+        let n = if thorough { 5 } else { 4 };
+        fast_sessions.push((p, n, vec![position_line(p.fen, &spos::hist(p)), "isready".into(), format!("go depth {n}"), "isready".into()]));
+    }
+    let fast_checked = AtomicU64::new(0);
+    let machinery: Mutex<Vec<String>> = Mutex::new(vec![]);
+    par_for(&fast_sessions, 8, &|_, (p, n, lines)| {
+        super::uciproc::FAST_CLOCK.with(|f| f.set(2000));
+        let r = session::run(lines, End::Quit, true);
+        super::uciproc::FAST_CLOCK.with(|f| f.set(0));
+        match r {
+            Err(e) => machinery.lock().unwrap().push(e),
+            Ok(res) => {
+                for g in &res.gos {
+                    fast_checked.fetch_add(1, Ordering::Relaxed);
+                    let mut bad = infogrammar::check_log(&g.output, &g.root, Some(i64::from(*n)));
+                    if g.bestmoves.is_empty() {
+                        bad.insert(0, format!("no bestmove after 'go depth {n}'"));
+                    }
+                    if let Some(first) = bad.first() {
+                        let mut r = session::session_json(lines, "quit");
+                        if let J::Obj(v) = &mut r {
+                            v.push(("fast_clock".into(), i(2000)));
+                        }
+                        sink.report(format!("fast-session|{}|{n}", p.name), format!("real executable under a 2000x fast clock, 'go depth {n}' on {} ({}): {first}", p.fen, p.name), r);
+                    }
+                }
+            }
+        }
+    });
+    if let Some(e) = machinery.into_inner().unwrap().first() {
+        eprintln!("MACHINERY: {e}");
+        return 2;
+    }
     // SAMPLED (not exhaustive): both threads printing at the same time. The search thread reports
     // ~100 iterations in a fraction of a second while the command loop answers a flood of isready;
     // every stdout line must still be one well-formed line of one thread. The OS scheduling of the
@@ -221,6 +260,7 @@ pub fn c14_run(args: &Args) -> i32 {
     let logs = merged.get("logs_checked") + checked.load(Ordering::Relaxed);
     let mut extra: Vec<(String, J)> = merged.counters.iter().map(|(k, v)| (format!("inproc_{}", k.replace(':', "_")), i(*v))).collect();
     extra.push(("process_go_depth_commands".into(), i(checked.load(Ordering::Relaxed))));
+    extra.push(("process_go_depth_commands_under_2000x_clock".into(), i(fast_checked.load(Ordering::Relaxed))));
     extra.push(("sampled_output_interleaving_rounds".into(), i(rounds as u64)));
     extra.push(("sampled_output_interleaving_lines_checked".into(), i(flood_lines)));
     let cov = Coverage {
@@ -309,6 +349,9 @@ pub fn replay_session(prop: &str, r: &J) -> i32 {
         _ => End::Quit,
     };
     let check_go = prop != "C15";
+    if let Some(f) = r.get("fast_clock").and_then(|x| x.int()) {
+        super::uciproc::FAST_CLOCK.with(|c| c.set(f as u64));
+    }
     let res = match session::run(&lines, end, check_go) {
         Ok(r) => r,
         Err(e) => {
